@@ -181,6 +181,33 @@ class LineBudget:
 
 
 # ------------------------------------------------------------------------------------
+# fresh thread: a call stack whose depth does not depend on how the harness got here
+
+def run_in_fresh_thread(fn, *args):
+    """runs fn(*args) on a new thread (large C stack) and waits for it.  CPython counts
+    recursion depth per thread, so inside fn the depth of the calling frame is a
+    constant of the code, not of the path through the harness (fan-out vs. replay)."""
+    import threading
+    box = {}
+
+    def target():
+        try:
+            box['result'] = fn(*args)
+        except BaseException as e:
+            box['error'] = e
+    old = threading.stack_size(512 * 1024 * 1024)
+    try:
+        t = threading.Thread(target=target)
+        t.start()
+        t.join()
+    finally:
+        threading.stack_size(old)
+    if 'error' in box:
+        raise box['error']
+    return box['result']
+
+
+# ------------------------------------------------------------------------------------
 # fork per run
 
 def run_forked(fn, arg, wall_cap=None):
